@@ -56,7 +56,7 @@ Reset ==
   /\ tasks' = <<>> /\ ttree' = <<>> /\ expired' = {}
   /\ bq' = [n \in Nodes |-> <<>>] /\ b2p' = [n \in Nodes |-> <<>>]
   /\ bclosed' = [n \in Nodes |-> FALSE] /\ nclose' = 0 /\ hops' = <<>>
-  /\ phase' = "poll" /\ ready' = {} /\ woke' = FALSE /\ seen' = <<>> /\ halted' = FALSE
+  /\ phase' = "poll" /\ ready' = {} /\ woke' = FALSE /\ seen' = <<>> /\ halted' = FALSE /\ ntask0' = 0 /\ stale' = FALSE
   /\ mon' = MonInit /\ out' = <<>> /\ sched' = <<>>
   \* connection set-up (accept iterations) up to the "ready" line is not modelled
   /\ LET r == CHOOSE j \in l..Len(TraceLog) : TraceLog[j].ev \in {"ready", "end"} /\ \A k \in l..(j-1) : TraceLog[k].ev \notin {"ready", "end"}
@@ -105,6 +105,7 @@ MayRun(fd) == IF Len(seen) > 0 /\ DoneFds[Len(seen)] = fd THEN TRUE
 Micro ==
   /\ phase \in {"cb", "tasks"}
   /\ \/ \E c \in Clients : MayRun(<<"c", c>>) /\ CbClientReadOne(c)
+     \/ \E c \in Clients : MayRun(<<"c", c>>) /\ ClientAbort(c)
      \/ \E n \in Nodes : MayRun(<<"s", n>>) /\ CbServerReadOne(n)
      \/ EndCallbacks
      \/ RunTasks
@@ -144,7 +145,8 @@ End ==
   /\ TimeoutScan
   /\ LET j == IterAt
          block == SubSeq(TraceLog, l0, j - 1)
-     IN /\ Chk("out", \A ch \in Chans : PerChan(Obs(out'), ch) = PerChan(Obs(block), ch), <<j, Obs(out')>>)
+     IN /\ Chk("out", \A ch \in Chans : PerChan(Obs(out'), ch) = PerChan(Obs(block), ch),
+               <<j, {<<ch, PerChan(Obs(out'), ch), PerChan(Obs(block), ch)>> : ch \in {x \in Chans : PerChan(Obs(out'), x) # PerChan(Obs(block), x)}}>>)
         /\ Chk("seen", SeenSet(seen) = TraceSeen(TraceLog[j]), <<j, seen>>)
         /\ Chk("snap", SnapOK(TraceLog[j]), <<j, [c \in Clients |-> [x \in DOMAIN inq'[c] |-> <<msg'[inq'[c][x]].done, msg'[inq'[c][x]].fragDone>>]], [n \in Nodes |-> <<Len(outfq'[n]), Len(infq'[n])>>], tasks'>>)
         /\ l' = j + 1 /\ Mark(j + 1)
